@@ -416,7 +416,7 @@ def histories_for(ctx):
     quick = ctx.tier == "quick"
     hs = C.load_corpus(ctx.prop)
     ncorpus = len(hs)
-    sh = short_scope(4)
+    sh = short_scope(4 if quick else 5)
     shp = shapes_scope(5, 4) if quick else shapes_scope(7, 5, rng, sample_n=7, nperms=1500)
     rnd = []
     for _ in range(500 if quick else 12000):
@@ -431,7 +431,7 @@ def histories_for(ctx):
                 big.append(gen_big(rng, n, pat, c))
     ctx.cov["rule"] = (
         f"corpus ({ncorpus}) + exhaustive short scope: all op sequences (plain/hinted insert at every valid position, remove by key / "
-        f"iterator, clear) of length <= 4 over keys 0..2, Map and MultiMap ({len(sh)} histories) + exhaustive shape scope: "
+        f"iterator, clear) of length <= {4 if quick else 5} over keys 0..2, Map and MultiMap ({len(sh)} histories) + exhaustive shape scope: "
         f"every insertion order of n <= {5 if quick else 6} keys{'' if quick else ' (and 1500 random orders of 7 keys)'} followed by every single removal / plain / hinted insert of every key at "
         f"every iterator position, count, front/back, and every pair of follow-ups for n <= {4 if quick else 5} ({len(shp)} histories) + {len(rnd)} random histories of 10..400 ops over 1..64 keys on Map, MultiMap and a second "
         f"Map (copy, bulk insert) + {len(big)} ascending/descending/zig-zag/random/hinted runs of {sizes} keys with finds; "
